@@ -225,4 +225,45 @@ example : Feasible exInst [1, 2, 0] := (feasible_iff _ _).mp (by decide)
 example : Spec.Pctsp.slack exInst [1, 2, 0] = 0 := by decide
 example : Canonical [1, 2, 0] := Or.inr ⟨[1, 2], by simp, by simp, rfl⟩
 
+/-! ### the depot rule, exactly, with the constants of the property text -/
+
+/-- the depot is offered IFF the collected prize has reached the requirement (EQUALITY included) or no
+customer is left — in every state -/
+theorem mask_depot_iff (i : Inst) (s : State) :
+    env.mask i s 0 = true ↔ (i.req ≤ s.tot ∨ visitedCustomers i s = i.n) := by
+  have hle : visitedCustomers i s ≤ i.n := cnt_le _ _
+  simp only [env, mask, if_true, maskReq_eq, Params.pctspMaskPrizeCmp, Params.pctspMaskCountCmp, Cmp.eval,
+    Cmp.evalNat, Bool.not_eq_true', Bool.and_eq_false_iff, decide_eq_false_iff_not]
+  constructor
+  · rintro (h | h)
+    · exact Or.inl (by omega)
+    · exact Or.inr (by omega)
+  · rintro (h | h)
+    · exact Or.inl (by omega)
+    · exact Or.inr (by omega)
+
+/-- "collected prize exactly reaching the requirement … is offered": at `cur_total_prize = 1.0` the return to
+the depot is admitted, whatever else the state is -/
+theorem depot_offered_at_exactly_required (i : Inst) (s : State) (h : s.tot = i.req) :
+    env.mask i s 0 = true :=
+  (mask_depot_iff i s).mpr (Or.inl (by omega))
+
+/-- one tick below the requirement, with a customer left, it is not -/
+theorem depot_masked_below_required (i : Inst) (s : State) (h : s.tot < i.req)
+    (hu : visitedCustomers i s < i.n) : env.mask i s 0 = false := by
+  cases hm : env.mask i s 0 with
+  | false => rfl
+  | true => rcases (mask_depot_iff i s).mp hm with h' | h' <;> omega
+
+/-- **C05, the equality case of the property text**: a canonical solution whose collected (real) prize is
+EXACTLY the required prize is a finished mask-confined run. -/
+theorem run_of_feasible_exact (i : Inst) {as : List Nat}
+    (hr : ∀ a ∈ as, a ≤ i.n) (ho : ∀ j, 1 ≤ j → j ≤ i.n → as.count j ≤ 1)
+    (hexact : collected i as = i.req) (hc : Canonical as) :
+    ∃ s, Run env i (env.reset i) as s ∧ env.done i s = true :=
+  run_of_feasible i ⟨hr, ho, Or.inl (by omega)⟩ hc
+
+/-- Non-vacuity: on the example instance `[1, 2, 0]` collects exactly the requirement (2 + 2 = 4). -/
+example : collected exInst [1, 2, 0] = exInst.req := by decide
+
 end Rl4co.Pctsp
